@@ -43,6 +43,8 @@ package object
 //@   ensures faithful-nil: istype(this, *Nil) ==> result == nil
 //@   ensures faithful-array: istype(this, *Array) ==> istype(result, []any) && len(as(result, []any)) == len(as(this, *Array).Elements)
 //@   ensures faithful-object: istype(this, *Obj) ==> istype(result, map[string]any)
+//@        && forallkey(as(this, *Obj).Pairs, k, has(as(result, map[string]any), k))
+//@        && forallkey(as(result, map[string]any), k, has(as(this, *Obj).Pairs, k))
 //@   modifies nothing
 
 // ---- scopes ----
@@ -154,3 +156,6 @@ package object
 
 //@ func (a *Array) Val
 //@   loop 0: invariant len(result) == rangeindex + 1 && rangeindex + 1 <= len(a.Elements)
+
+//@ func (o *Obj) Val
+//@   loop 0: invariant result != nil && fresh(result) && forallkey(o.Pairs, k, visited(k) ==> has(result, k)) && forallkey(result, k, has(o.Pairs, k))
